@@ -20,6 +20,7 @@
 const void *xv_des_ctx; int xv_des_key_set, xv_des_salt_set;
 unsigned char xv_des_first_key[8], xv_des_last_key[8]; unsigned xv_des_keys;
 uint32_t xv_des_last_salt; unsigned xv_des_last_count; unsigned xv_des_blocks;
+unsigned char xv_des_last_in[8], xv_des_last_out[8]; int xv_des_last_decrypt;
 
 void des_set_key (struct des_ctx *restrict ctx, const unsigned char key[8])
 {
@@ -51,7 +52,12 @@ void des_crypt_block (struct des_ctx *restrict ctx, unsigned char *out, const un
   XV_STUBPRE ("C04,C07", ctx == xv_des_ctx && xv_des_key_set && xv_des_salt_set,
               "des_crypt_block: key and salt were set in this context");
   XV_STUBPRE ("C04", XV_R_OK (in, 8) && XV_W_OK (out, 8), "des_crypt_block: 8 readable input bytes, 8 writable output bytes");
+  for (int i = 0; i < 8; i++)   /* XV_UNWIND 8 */
+    xv_des_last_in[i] = in[i];
   XV_HAVOC_SLICE (out, 8);
+  for (int i = 0; i < 8; i++)   /* XV_UNWIND 8 */
+    xv_des_last_out[i] = out[i];
+  xv_des_last_decrypt = decrypt;
   xv_des_last_count = count;
   if (xv_des_blocks < 1000) xv_des_blocks++;
   (void) decrypt;
